@@ -302,6 +302,15 @@ add('C16','status-recovery-configures-nil',OP,"func WithStatusRecovery(status in
 add('C16','log-recovery-repanics',OP,"		l.Println(source.Stack(4, true, msg))\n","		l.Println(source.Stack(4, true, msg))\n		panic(msg)\n",'violation:C16.R9')
 add('C16','write-recovery-fixed-status',OP,"		http.Error(w, http.StatusText(status), status)\n		source.DumpStack(out, 4, true, msg)","		http.Error(w, http.StatusText(status), http.StatusInternalServerError)\n		source.DumpStack(out, 4, true, msg)",'violation:C16.R9')
 
+add('C01','node-stored-only-when-served',RO,"	ctx.SetNode(node)\n\n	if ok {","	if ok {\n		ctx.SetNode(node)\n	}\n\n	if ok {",'violation:C01.R13')
+add('C01','benign-node-stored-via-local',RO,"	ctx.SetNode(node)\n\n	if ok {","	matched := node\n	ctx.SetNode(matched)\n\n	if ok {",'silent')
+add('C09','options-405-wrapped-eagerly',ME,"	if _, found := n.handlers[methodNotAllowed]; !found {\n		n.handlers[methodNotAllowed] = ApplyMiddleware(n.root.methodNotAllowedBuilder(n), \"\", pattern, n.root.Name(), ms...)\n	}","	h405 := ApplyMiddleware(n.root.methodNotAllowedBuilder(n), \"\", pattern, n.root.Name(), ms...)\n	if _, found := n.handlers[methodNotAllowed]; !found {\n		n.handlers[methodNotAllowed] = h405\n	}",'violation:C09.R4b')
+
+add('C02','word-excludes-upper-z',IC,"(c < 'A' || c > 'Z')","(c < 'A' || c >= 'Z')",'violation:C02.R9b')
+add('C02','word-includes-at-sign',IC,"(c < 'A' || c > 'Z')","(c < '@' || c > 'Z')",'violation:C02.R9b')
+add('C14','port-excludes-nine',MA,"		if b < '0' || b > '9' {","		if b < '0' || b >= '9' {",'violation:C14.R7b')
+add('C02','benign-word-as-switch',IC,"		if (c < '0' || c > '9') && (c < 'a' || c > 'z') && (c < 'A' || c > 'Z') {\n			return false\n		}","		switch {\n		case '0' <= c && c <= '9', 'a' <= c && c <= 'z', 'A' <= c && c <= 'Z':\n		default:\n			return false\n		}",'silent')
+
 base=os.path.dirname(os.path.abspath(__file__))
 for pid,entries in C.items():
     os.makedirs(os.path.join(base,pid),exist_ok=True)
